@@ -1121,3 +1121,116 @@ func MustPassAfterSkipping(start ssa.Instruction, pred func(ssa.Instruction) boo
 	}
 	return true, nil
 }
+
+// postDominators computes, for every block, the set of blocks that
+// post-dominate it (iterative dataflow over the reversed CFG; blocks without
+// successors are exits).
+func postDominators(fn *ssa.Function) map[*ssa.BasicBlock]map[*ssa.BasicBlock]bool {
+	all := map[*ssa.BasicBlock]bool{}
+	for _, b := range fn.Blocks {
+		all[b] = true
+	}
+	pd := map[*ssa.BasicBlock]map[*ssa.BasicBlock]bool{}
+	for _, b := range fn.Blocks {
+		if len(b.Succs) == 0 {
+			pd[b] = map[*ssa.BasicBlock]bool{b: true}
+		} else {
+			m := map[*ssa.BasicBlock]bool{}
+			for k := range all {
+				m[k] = true
+			}
+			pd[b] = m
+		}
+	}
+	changed := true
+	for changed {
+		changed = false
+		for i := len(fn.Blocks) - 1; i >= 0; i-- {
+			b := fn.Blocks[i]
+			if len(b.Succs) == 0 {
+				continue
+			}
+			var inter map[*ssa.BasicBlock]bool
+			for _, s := range b.Succs {
+				if inter == nil {
+					inter = map[*ssa.BasicBlock]bool{}
+					for k := range pd[s] {
+						inter[k] = true
+					}
+				} else {
+					for k := range inter {
+						if !pd[s][k] {
+							delete(inter, k)
+						}
+					}
+				}
+			}
+			inter[b] = true
+			if len(inter) != len(pd[b]) {
+				pd[b] = inter
+				changed = true
+			}
+		}
+	}
+	return pd
+}
+
+// ControlDeps returns the branch conditions block b is control dependent on
+// (directly or transitively): b post-dominates one successor of the branch but
+// not the branch block itself.
+func ControlDeps(b *ssa.BasicBlock) []Cond {
+	fn := b.Parent()
+	pd := postDominators(fn)
+	var out []Cond
+	seen := map[*ssa.BasicBlock]bool{}
+	work := []*ssa.BasicBlock{b}
+	for len(work) > 0 {
+		x := work[len(work)-1]
+		work = work[:len(work)-1]
+		for _, blk := range fn.Blocks {
+			ifi, ok := blk.Instrs[len(blk.Instrs)-1].(*ssa.If)
+			if !ok || seen[blk] || blk == x {
+				continue
+			}
+			if pd[blk][x] {
+				continue
+			}
+			for i, s := range blk.Succs {
+				if pd[s][x] {
+					seen[blk] = true
+					out = append(out, normCond(Cond{V: ifi.Cond, True: i == 0, If: ifi}))
+					work = append(work, blk)
+					break
+				}
+			}
+		}
+	}
+	return out
+}
+
+// SameLoad reports whether a and b are loads of the same field path of the
+// same base value (or identical values).
+func SameLoad(a, b ssa.Value) bool {
+	if a == b {
+		return true
+	}
+	la, ok1 := a.(*ssa.UnOp)
+	lb, ok2 := b.(*ssa.UnOp)
+	if !ok1 || !ok2 || la.Op != token.MUL || lb.Op != token.MUL {
+		return false
+	}
+	if la.X == lb.X {
+		return true
+	}
+	ba, pa, oka := FieldRef(la.X)
+	bb, pb, okb := FieldRef(lb.X)
+	if !oka || !okb || ba != bb || len(pa) != len(pb) {
+		return false
+	}
+	for i := range pa {
+		if pa[i] != pb[i] {
+			return false
+		}
+	}
+	return true
+}
